@@ -182,7 +182,7 @@ def check(run, replay=None):
     lres = tie.run_impl(legal)
     faults, expect = fault_scenarios(tie, rng, thorough)
     legal_misos = [(s.crc, s.retries, s.calls, lres[s.id].miso) for s in legal if s.tag == "script" and s.id in lres]
-    raws = raw_scenarios(rng, thorough, legal_misos)
+    raws = raw_scenarios(rng, thorough, legal_misos) + S.directed_cuts(legal_misos, unrle, rle, limit=200 if thorough else 24)
     allscn = legal + faults + raws
     byid = {s.id: s for s in allscn}
     bad, diffs = [], []
@@ -206,6 +206,11 @@ def check(run, replay=None):
                 call = s.calls[k]
                 if res == "panic":
                     bad.append((s, k, "panic in `%s`" % call))
+                if res.startswith("hang"):
+                    # (judged against the model's run on the same peer: the modelled driver returns after costs[k][0] bytes)
+                    if k not in costs or costs[k][0] < 40000000:
+                        bad.append((s, k, "call `%s` does not return: it was still clocking the bus after 40,000,000 bytes (the modelled driver returns after %s bytes on this peer; proved bound %s)" % (call, costs[k][0] if k in costs else "?", costs[k][1] if k in costs else "?")))
+                    continue
                 nbytes = S.trace_bytes(r.calltrace[k])
                 if k in costs and nbytes > costs[k][1]:
                     bad.append((s, k, "call `%s` clocked %d bytes, proved bound %d" % (call, nbytes, costs[k][1])))
